@@ -126,6 +126,7 @@ def restyle(text, nl, tab, final):
 STYLES = [(nl, tab, final) for nl in ("\n", "\r\n", "\r") for tab in (False, True) for final in (True, False)]
 
 
+@common.guarded("C18")
 def _case(c):
     name, text, ref = c
     d = digest(text)
